@@ -87,9 +87,7 @@ impl CaseSink {
         s.push_str("Definition cases := [\n");
         s.push_str(&self.cur.join(";\n"));
         s.push_str("\n].\n");
-        s.push_str("Definition tag_failing := tt. Definition tag_violating := tt.\n");
-        s.push_str("Eval vm_compute in (tag_failing, corr_failing cases).\n");
-        s.push_str("Eval vm_compute in (tag_violating, prop_violating cases).\n");
+        s.push_str("Eval vm_compute in (tt, report cases).\n");
         fs::write(self.dir.join(format!("cases_{}.v", self.shard)), s).unwrap();
         fs::write(
             self.dir.join(format!("cases_{}.json", self.shard)),
